@@ -324,7 +324,8 @@ def r9(ctx):
              'remaining wait is recomputed inside the loop as (deadline - now) from a deadline fixed once before the loop '
              '(clock + timeout ...) and a clock reading of this iteration, under the test now < deadline; a cumulative '
              'decrement reports RESULT_ERR_TIMEOUT early after wake-ups without a symbol, and the AUTO-SYN generator relies '
-             'on that result to know that the bus was silent for its interval', minimum=2)
+             'on that result to know that the bus was silent for its interval; the loop is left early only with a result, and '
+             'nothing inside it returns a possible timeout result', minimum=8)
     fb = ctx.fb
     import re
     for name in ('ebusd::PlainDevice::recv', 'ebusd::EnhancedDevice::recv'):
@@ -353,6 +354,48 @@ def r9(ctx):
                 ok = fixed and fresh and guarded
                 why += ' (deadline fixed before the loop: %s, fresh clock reading: %s, now < deadline: %s)' % (fixed, fresh, guarded)
             ctx.ob('C03.R9', fn, nid, ok, 'remaining timeout in %s' % name.split('::')[-2], why)
+        # the loop is left with a timeout result only when the time is up: every break is taken for a result that is not
+        # negative, for a zero timeout, or under now >= deadline; every return inside the loop hands out a result that is known
+        # not to be RESULT_ERR_TIMEOUT (a returned callee result may be one if the callee can return that constant)
+        tmo_code = fb.enumerator('ebusd::result_e', 'RESULT_ERR_TIMEOUT') if 'ebusd::result_e' in fb.enums else None
+        if tmo_code is None:
+            for en, e in fb.enums.items():
+                for xx in e['enumerators']:
+                    if xx['name'] == 'RESULT_ERR_TIMEOUT':
+                        tmo_code = xx['v']
+        resd = [d for nid, d, rhs, op, lhs in fn.assignments() if rhs is not None and '.read(' in fn.key(rhs) and d]
+        rn = resd[0].split(':')[-1] if resd else 'result'
+        dls = set(m.group(1) for nid, rhs, op in ws for m in [re.match(r'^(?:\(unsigned int\))?\((\w+) - (\w+)\)$', fn.key(rhs)) if rhs is not None else None] if m)
+        for x in sorted(inloop):
+            v = fn.nodes[x]
+            if v['k'] == 'BreakStmt':
+                atoms = set((a[0], a[1]) for a in fn.atoms(x))
+
+                def fine(at):
+                    return ('(%s < #0)' % rn, False) in at or ('(%s == #0)' % rn, True) in at or ('(%s == #0)' % tmo, True) in at or \
+                        any(re.match(r'^\(\w+ < (%s)\)$' % '|'.join(map(re.escape, dls)), k) and not p for k, p in at if dls)
+                ok = fine(atoms)
+                if not ok:
+                    # the condition of the enclosing if may be a disjunction: every alternative has to be one of the reasons
+                    p_ = fn.parent(x)
+                    while p_ is not None and fn.nodes[p_]['k'] != 'IfStmt':
+                        p_ = fn.parent(p_)
+                    if p_ is not None:
+                        dnf = facts.implied(fn, fn.nodes[p_]['cond'], True)
+                        ok = bool(dnf) and all(fine(atoms | set(facts.atom_key(fn, a) for a in conj)) for conj in dnf)
+                ctx.ob('C03.R9', fn, x, ok, 'loop exit in %s' % name.split('::')[-2], 'taken with a result, a zero timeout or an expired deadline: %s' % ok)
+            elif v['k'] == 'ReturnStmt' and v.get('val') is not None:
+                rv = fn.nodes[fn.strip(v['val'], casts=True)]
+                atoms = set((a[0], a[1]) for a in fn.atoms(x))
+                if rv.get('k') in ('CallExpr', 'CXXMemberCallExpr'):
+                    cal = [g for g in fb.functions if g.name == rv.get('callee') and g.blocks]
+                    may = any(g.val(g.nodes[r].get('val')) == tmo_code or (g.nodes[r].get('val') is not None and '#%d' % tmo_code in g.key(g.nodes[r]['val']))
+                              for g in cal for r in g.all('ReturnStmt')) if cal else True
+                    ok = not may
+                else:
+                    ok = ('(%s == #%d)' % (fn.key(v['val']), tmo_code), False) in atoms
+                ctx.ob('C03.R9', fn, x, ok, 'return inside the wait loop of %s' % name.split('::')[-2],
+                       'cannot hand out RESULT_ERR_TIMEOUT before the deadline: %s' % ok)
 
 
 def r11(ctx):
@@ -523,7 +566,78 @@ def r17(ctx):
         raise AnalysisBroken('C03.R17: condition of the lock counter load not recognised')
 
 
+def r19(ctx):
+    ctx.rule('C03.R19', 'a request that lost arbitration is started again at most busLostRetries times: the counter starts at 0 '
+             '(constructor), is incremented by one for each retry, and the retry is granted only while counter < configured '
+             'maximum (strictly; counter <= maximum is one arbitration too many, also for a maximum of 0)', minimum=3)
+    import rules.C13 as c13
+    fb = ctx.fb
+    fn = fb.fn(A.SS)
+    ctx.touch(fn)
+    n = 0
+    for c in fn.all('CXXMemberCallExpr'):
+        if not (fn.nodes[c].get('callee') or '').endswith('::incrementBusLostRetries'):
+            continue
+        p = fn.parent(c)
+        child = c
+        cond = None
+        while p is not None:
+            v = fn.nodes[p]
+            if v['k'] == 'IfStmt' and v.get('then') is not None and (child == v['then'] or child in set(fn.walk(v['then']))):
+                cond = v['cond']
+                break
+            child = p
+            p = fn.parent(p)
+        if cond is None:
+            continue
+        found = False
+        for x in fn.walk(cond):
+            v = fn.nodes[x]
+            if v['k'] != 'BinaryOperator' or v.get('op') not in ('<', '<=', '>', '>='):
+                continue
+            ta, ca = c13._linear(fn, v['lhs'])
+            tb, cb = c13._linear(fn, v['rhs'])
+            t = dict(ta)
+            for k, cc in tb.items():
+                t[k] = t.get(k, 0) - cc
+            t = {k: cc for k, cc in t.items() if cc}
+            used = [k for k in t if k.endswith('.getBusLostRetries()')]
+            mx = [k for k in t if k.endswith('.busLostRetries')]
+            if len(used) != 1 or len(mx) != 1 or len(t) != 2:
+                continue
+            found = True
+            n += 1
+            cu = t[used[0]]
+            k = (ca - cb) * (1 if cu > 0 else -1)
+            op = v['op'] if cu > 0 else {'<': '>', '<=': '>=', '>': '<', '>=': '<='}[v['op']]
+            # normal form "used + K < max"
+            if op == '<=':
+                k -= 1
+            ok = op in ('<', '<=') and k == 0 and abs(cu) == 1 and t[mx[0]] == -cu
+            ctx.ob('C03.R19', fn, x, ok, 'retry after a lost arbitration', 'granted while used %+d < maximum (%s)' % (k, fn.key(x)))
+        if not found:
+            ctx.ob('C03.R19', fn, c, False, 'retry after a lost arbitration', 'not under a comparison of the used retries with the configured maximum')
+            n += 1
+    cls = fb.classes.get('ebusd::BusRequest')
+    for f in fb.functions:
+        if f.name == 'ebusd::BusRequest::BusRequest':
+            for i in f.inits:
+                if i.get('member') == 'm_busLostRetries':
+                    n += 1
+                    ctx.ob('C03.R19', f, i['init'], f.val(i['init']) == 0, 'initial retry counter', 'starts at %s' % f.val(i['init']))
+            break
+    for f in fb.functions:
+        if f.name == 'ebusd::BusRequest::incrementBusLostRetries' and f.nodes:
+            steps = [(op, f.val(rhs) if rhs is not None else 1) for nid, d, rhs, op, lhs in f.assignments() if d == 'this.m_busLostRetries']
+            n += 1
+            ctx.ob('C03.R19', f, f.body, steps in ([('++', 1)], [('+=', 1)]), 'retry counter step', 'changes by %s' % steps)
+            break
+    if n < 3:
+        raise AnalysisBroken('C03.R19: retry bookkeeping not found (%d sites)' % n)
+
+
 def run(ctx):
+    r19(ctx)
     r17(ctx)
     r14(ctx)
     initial_state_rule(ctx, 'C03.R15')
